@@ -3,6 +3,7 @@ import MaddyVerif.Model.QueueHop
 import MaddyVerif.Model.QueueRestart
 import MaddyVerif.Model.QueueErr
 import MaddyVerif.Model.QueueDup
+import MaddyVerif.Model.QueueTrace
 /-!
 # C01 — every queued recipient ends in exactly one terminal outcome
 
@@ -1722,5 +1723,66 @@ example :
     commitCount 2 evs = 1 ∧ reportCount 1 evs = 0 ∧ dedup [1, 1, 2, 1] = [1, 2] := by decide
 
 end round9
+
+/-! ## round 10: the names of the MTAs in the report (submitting client, the server itself) -/
+section round10
+open MaddyVerif.QueueRestart MaddyVerif.QueueTrace
+
+/-- The MTA names stop the report iff the SERVER's own name is unusable - for every conversion
+function, every client name, traced or not. -/
+theorem C01_mta_names_ok_iff_server_name (conv : String → Option String) (o : Origin) :
+    mtaOk conv o = hostOk conv o.host := by
+  unfold mtaOk hostOk mtaFields
+  by_cases hh : o.host = ""
+  · simp [hh]
+  · cases hc : conv o.host with
+    | none => simp [hh]
+    | some h =>
+      by_cases hr : receivedFromMTA o = ""
+      · simp [hh, hr]
+      · cases conv (receivedFromMTA o) <;> simp [hh, hr]
+
+/-- What the submitting client called itself, whether the sender is traced and whether the instance
+still has the connection state play no part in the question whether a report is produced. -/
+theorem C01_report_decision_ignores_client (conv : String → Option String)
+    (c c' : Option String) (d d' : Bool) (host : String) (hdr : Header) (dsn : Bool) (env : Env)
+    (failed : List Addr) :
+    reportDecisionT conv ⟨c, d, host⟩ hdr dsn env failed =
+      reportDecisionT conv ⟨c', d', host⟩ hdr dsn env failed := by
+  unfold reportDecisionT
+  rw [C01_mta_names_ok_iff_server_name, C01_mta_names_ok_iff_server_name]
+
+/-- With a usable server name the decision is the one the theorems above speak of
+(`C01_exactly_one_outcome_any_header`, `runRD_eq`, …), whatever the client name converts to. -/
+theorem C01_report_decision_with_names_eq (conv : String → Option String) (o : Origin)
+    (hdr : Header) (dsn : Bool) (env : Env) (failed : List Addr) (hh : hostOk conv o.host = true) :
+    reportDecisionT conv o hdr dsn env failed = reportDecision hdr dsn env failed := by
+  unfold reportDecisionT
+  rw [C01_mta_names_ok_iff_server_name, hh, Bool.and_true]
+
+/-- A client name the conversion refuses is left out of the report; the report is still made. -/
+theorem C01_inconvertible_client_name_left_out (conv : String → Option String) (host h helo : String)
+    (hh : host ≠ "") (hc : conv host = some h) (hn : helo ≠ "") (he : conv helo = none) :
+    mtaFields conv host helo = some [("Reporting-MTA", "dns; " ++ h)] := by
+  unfold mtaFields
+  simp [hh, hc, hn, he]
+
+/-- Non-vacuity: a conversion that refuses `xn--1.example` (malformed A-label) and empty labels; a
+traced client of that name; server `mx.example.org`. -/
+example :
+    let conv : String → Option String := fun s =>
+      if s == "xn--1.example" || s == "laptop..lan" then none else some s
+    hostOk conv "mx.example.org" = true ∧
+    mtaFields conv "mx.example.org" (receivedFromMTA ⟨some "xn--1.example", false, "mx.example.org"⟩) =
+      some [("Reporting-MTA", "dns; mx.example.org")] ∧
+    mtaFields conv "mx.example.org" (receivedFromMTA ⟨some "pc.lan", false, "mx.example.org"⟩) =
+      some [("Reporting-MTA", "dns; mx.example.org"), ("Received-From-MTA", "dns; pc.lan")] ∧
+    receivedFromMTA ⟨some "pc.lan", true, "mx.example.org"⟩ = "" ∧
+    reportDecisionT conv ⟨some "laptop..lan", false, "mx.example.org"⟩ [] true
+      ⟨false, false, fun _ => false⟩ [3] = true ∧
+    reportDecisionT conv ⟨none, false, "xn--1.example"⟩ [] true
+      ⟨false, false, fun _ => false⟩ [3] = false := by decide
+
+end round10
 
 end MaddyVerif.C01
